@@ -138,6 +138,64 @@ theorem C03_wilson_component_ok {rows cols : Nat} (hr : 0 < rows) (hc : 0 < cols
   simp only [metaComponent, if_true] at hu hv
   exact hsp.2.2.2.1 u v (mem_cells.mp hu) (mem_cells.mp hv)
 
+private theorem startCoord_grid {rows cols : Nat} (hr : 0 < rows) (hc : 0 < cols) {given draws c rest}
+    (hg : ∀ c, given = some c → inGrid rows cols c)
+    (h : startCoord rows cols given draws = some (c, rest)) : inGrid rows cols c := by
+  unfold startCoord at h
+  split at h
+  · simp only [Option.some.injEq, Prod.mk.injEq] at h; obtain ⟨rfl, _⟩ := h; exact hg _ rfl
+  · exact C01_start_in_grid hr hc h
+
+/-- instantiation for gen_percolation (no flag: the component is the recorded visited set) -/
+theorem C03_percolation_component_ok {rows cols : Nat} (hr : 0 < rows) (hc : 0 < cols) {p given draws rands fuel o}
+    (hg : ∀ c, given = some c → inGrid rows cols c)
+    (h : genPercolationTop rows cols p given draws rands fuel = some o) :
+    WF rows cols o.edges ∧ ComponentOK rows cols o.edges (metaComponent rows cols false o.visited) := by
+  have hwf := (C01_percolation_wf h).1
+  have hvis := C12_percolation_visited_exact h
+  have hstart : inGrid rows cols o.start := by
+    unfold genPercolationTop at h
+    split at h
+    · simp at h
+    · next start d1 hst =>
+      split at h
+      · simp at h
+      · split at h
+        · simp at h
+        · simp only [Option.some.injEq] at h; subst h; exact startCoord_grid hr hc hg hst
+  exact ⟨hwf, by simpa [metaComponent, ComponentOK] using C12_component_of_start_ok hwf hstart hvis⟩
+
+/-- instantiation for gen_dfs_percolation: dfs flag (sound by `C12_dfsperc_flag_sound`) or the recomputed visited set -/
+theorem C03_dfsperc_component_ok {rows cols : Nat} (hr : 0 < rows) (hc : 0 < cols) {p a given draws rands fuel o}
+    (hg : ∀ c, given = some c → inGrid rows cols c)
+    (h : genDfsPercolationTop rows cols p a given draws rands fuel = some o) :
+    WF rows cols o.edges ∧ ComponentOK rows cols o.edges (metaComponent rows cols o.fullyConnected o.visited) := by
+  have hwf := (C01_dfsperc_wf hr hc hg h).1
+  refine ⟨hwf, ?_⟩
+  cases hfl : o.fullyConnected with
+  | true =>
+    have hall := C12_dfsperc_flag_sound hr hc hg h hfl
+    refine ⟨fun c hcm => mem_cells.mp (by simpa [metaComponent] using hcm), ?_⟩
+    intro u hu v hv
+    simp only [metaComponent, if_true] at hu hv
+    exact hall u v (mem_cells.mp hu) (mem_cells.mp hv)
+  | false =>
+    have hvis := C12_dfsperc_visited_exact hr hc hg h
+    have hstart : inGrid rows cols o.start := by
+      unfold genDfsPercolationTop at h
+      split at h
+      · simp at h
+      · next start d1 hst =>
+        split at h
+        · simp at h
+        · split at h
+          · simp at h
+          · simp only at h
+            split at h
+            · simp at h
+            · simp only [Option.some.injEq] at h; subst h; exact startCoord_grid hr hc hg hst
+    simpa [metaComponent, ComponentOK] using C12_component_of_start_ok hwf hstart hvis
+
 /-- full per-item statement for the dfs family, end to end -/
 theorem C03_dfs_item {rows cols : Nat} (hr : 0 < rows) (hc : 0 < cols) {a given draws fuel o opts s e picks fuel' sol}
     (hg : ∀ c, given = some c → inGrid rows cols c)
